@@ -3,8 +3,8 @@
    biom/table.py on every run (Gen/MetadataGen.v, vocabulary Gen/MetaPrelude.v). *)
 From Coq Require Import String.
 From Coq Require Import List Arith ZArith Lia Bool.
-From BiomV Require Import Base.Tree Base.ListUtil Base.Matrix Model.Table Model.Tsv Model.Metadata
-  Gen.MetaPrelude Gen.MetadataGen.
+From BiomV Require Import Base.Tree Base.ListUtil Base.Matrix Model.Table Model.Tsv Proofs.TsvProofs
+  Proofs.MetadataProofs Model.Metadata Gen.MetaPrelude Gen.MetadataGen.
 Import ListNotations.
 
 (* a cast metadata field (None or one dict per id) as the code stores it *)
@@ -134,3 +134,167 @@ Theorem add_metadata_unknown_axis st m s :
 Proof.
   intros H1 H2. unfold add_metadata_gen, tb_metadata, ax_of. rewrite H1, H2. reflexivity.
 Qed.
+
+(* ---- del_metadata ---- *)
+
+Lemma adel_absent a k : aget a k = None -> adel a k = a.
+Proof.
+  induction a as [|[k' v] a IH]; simpl; intros H; [reflexivity|].
+  rewrite text_eqb_sym. destruct (text_eqb k k'); [discriminate|]. simpl. rewrite IH; auto.
+Qed.
+
+Lemma upd_cons_S {A} (x : A) l i v : upd (x :: l) (S i) v = x :: upd l i v.
+Proof. reflexivity. Qed.
+Lemma upd_upd {A} (l : list A) i x y : upd (upd l i x) i y = upd l i y.
+Proof.
+  revert i; induction l as [|z l IH]; intros [|i]; try reflexivity.
+  rewrite !upd_cons_S, IH. reflexivity.
+Qed.
+Lemma upd_nth_same {A} (l : list A) i d : (i < length l)%nat -> upd l i (nth i l d) = l.
+Proof.
+  revert i; induction l as [|z l IH]; simpl; intros [|i] H; try lia; try reflexivity.
+  rewrite upd_cons_S, IH by lia. reflexivity.
+Qed.
+Lemma nth_upd_same {A} (l : list A) i v d : (i < length l)%nat -> nth i (upd l i v) d = v.
+Proof. apply nth_upd_eq. Qed.
+Lemma upd_app_here {A} (pre : list A) x suf v : upd (pre ++ x :: suf) (length pre) v = pre ++ v :: suf.
+Proof. induction pre as [|z pre IH]; [reflexivity|]. simpl app. simpl length. rewrite upd_cons_S, IH. reflexivity. Qed.
+
+Lemma set_md_same a st : set_md a st (s_md a st) = st.
+Proof. destruct a, st; reflexivity. Qed.
+
+(* the loop over the keys on the dict object at position i *)
+Lemma del_keys_bridge a i ks : forall st l,
+  s_md a st = Some (map (@Some assoc) l) -> (i < length l)%nat ->
+  del_metadata_gen_loop3 (axis_text a) i ks st
+  = ROk (set_md a st (Some (map (@Some assoc) (upd l i (adel_all (nth i l []) ks))))).
+Proof.
+  induction ks as [|k ks IH]; intros st l Hmd Hi.
+  - cbn [del_metadata_gen_loop3 adel_all fold_left]. rewrite upd_nth_same by exact Hi.
+    rewrite <- Hmd, set_md_same. reflexivity.
+  - cbn [del_metadata_gen_loop3]. unfold tb_entry_has, tb_entry_del, tb_entry, tb_entry_put.
+    rewrite ax_of_axis_text. cbn [bind]. rewrite Hmd, (nth_error_map_Some _ _ Hi). cbn [bind].
+    unfold adel_all. cbn [fold_left]. fold (adel_all (adel (nth i l []) k) ks).
+    destruct (aget (nth i l []) k) eqn:Eg.
+    + cbn [bind]. rewrite (IH _ (upd l i (adel (nth i l []) k))).
+      * rewrite set_md_set_md, upd_upd, nth_upd_same by exact Hi. reflexivity.
+      * rewrite s_md_set_md, upd_map. reflexivity.
+      * rewrite upd_length. exact Hi.
+    + rewrite (adel_absent _ _ Eg). apply IH; assumption.
+Qed.
+
+(* the loop over zip(ids, metadata): positions *)
+Definition del_at (ks : list text) (l : list assoc) (p : text * nat) : list assoc :=
+  upd l (snd p) (adel_all (nth (snd p) l []) ks).
+Lemma del_positions_bridge a ks ps : forall st l,
+  s_md a st = Some (map (@Some assoc) l) -> (forall p, In p ps -> (snd p < length l)%nat) ->
+  del_metadata_gen_loop2 ks (axis_text a) ps st
+  = ROk (set_md a st (Some (map (@Some assoc) (fold_left (del_at ks) ps l)))).
+Proof.
+  induction ps as [|[id j] ps IH]; intros st l Hmd Hps.
+  - cbn [del_metadata_gen_loop2 fold_left]. rewrite <- Hmd, set_md_same. reflexivity.
+  - cbn [del_metadata_gen_loop2 fold_left].
+    assert (Hj : (j < length l)%nat) by (apply (Hps (id, j)); left; reflexivity).
+    rewrite (del_keys_bridge a j ks st l Hmd Hj). cbn [bind].
+    rewrite (IH _ (del_at ks l (id, j))).
+    + rewrite set_md_set_md. reflexivity.
+    + rewrite s_md_set_md. reflexivity.
+    + intros p Hp. unfold del_at. rewrite upd_length. apply Hps. right. exact Hp.
+Qed.
+
+Lemma fold_positions {A} (f : A -> A) d (suf : list A) : forall pre ids,
+  length ids = length suf ->
+  fold_left (fun l (p : text * nat) => upd l (snd p) (f (nth (snd p) l d)))
+            (combine ids (seq (length pre) (length suf))) (pre ++ suf)
+  = pre ++ map f suf.
+Proof.
+  induction suf as [|x suf IH]; intros pre ids Hl.
+  - destruct ids; reflexivity.
+  - destruct ids as [|id ids]; [discriminate|]. simpl in Hl.
+    cbn [length seq combine fold_left snd map].
+    rewrite app_nth2, Nat.sub_diag by lia. cbn [nth].
+    rewrite upd_app_here.
+    change (pre ++ f x :: suf) with (pre ++ [f x] ++ suf). rewrite app_assoc.
+    replace (S (length pre)) with (length (pre ++ [f x])) by (rewrite app_length; simpl; lia).
+    rewrite IH by lia. rewrite <- app_assoc. reflexivity.
+Qed.
+
+Lemma empties_test l :
+  bset_eqb (bset_of (map (fun e : option assoc => if negb (entry_truthy e) then true else false)
+                         (map (@Some assoc) l))) (bset_of [true])
+  = negb (is_nil l) && forallb is_nil l.
+Proof.
+  rewrite map_map. unfold bset_eqb, bset_of. cbn [fst snd existsb negb orb].
+  assert (A : existsb negb (map (fun x : assoc => if negb (entry_truthy (Some x)) then true else false) l)
+              = negb (forallb is_nil l)).
+  { induction l as [|x l IH]; [reflexivity|]. cbn [map existsb forallb]. rewrite IH.
+    destruct x; reflexivity. }
+  assert (B : forallb is_nil l = true ->
+              existsb (fun b : bool => b) (map (fun x : assoc => if negb (entry_truthy (Some x)) then true else false) l)
+              = negb (is_nil l)).
+  { destruct l as [|x l]; [reflexivity|]. cbn [map existsb forallb]. destruct x; [|discriminate]. reflexivity. }
+  rewrite A. destruct (forallb is_nil l) eqn:F.
+  - rewrite (B eq_refl). destruct (is_nil l); reflexivity.
+  - rewrite !andb_false_r. reflexivity.
+Qed.
+
+(* one turn of the loop over the axes *)
+Lemma del_axis_step a ks rest st o :
+  s_md a st = raw o -> (forall l, o = Some l -> length l = length (s_ids a st)) ->
+  del_metadata_gen_loop1 ks (axis_text a :: rest) st
+  = del_metadata_gen_loop1 ks rest (set_md a st (raw (del_axis (Some ks) o))).
+Proof.
+  intros Hmd Hlen. cbn [del_metadata_gen_loop1].
+  unfold tb_metadata at 1. rewrite ax_of_axis_text. cbn [bind]. rewrite Hmd.
+  destruct o as [l|]; cbn [raw option_map mdraw_is_none].
+  - unfold tb_zip_ids_md. rewrite ax_of_axis_text. cbn [bind]. rewrite Hmd. cbn [raw option_map bind].
+    rewrite map_length.
+    rewrite (del_positions_bridge a ks _ st l Hmd).
+    2:{ intros [pi pj] Hp. apply in_combine_r in Hp. cbn [snd]. apply in_seq in Hp. lia. }
+    cbn [bind]. unfold tb_metadata. rewrite ax_of_axis_text. cbn [bind]. rewrite s_md_set_md.
+    cbn [py_iter_md bind]. rewrite empties_test.
+    pose proof (fold_positions (fun e => adel_all e ks) [] l [] (s_ids a st)) as F.
+    cbn [app length] in F. unfold del_at. rewrite F by (symmetry; apply Hlen; reflexivity).
+    cbn [del_axis].
+    destruct (negb (is_nil (map (fun e => adel_all e ks) l)) && forallb is_nil (map (fun e => adel_all e ks) l)).
+    + destruct a.
+      * change (text_eqb (axis_text Obs) (txt "sample")) with false. cbv iota.
+        change (set_omd ?s None) with (set_md Obs s None). rewrite set_md_set_md. reflexivity.
+      * change (text_eqb (axis_text Samp) (txt "sample")) with true. cbv iota.
+        change (set_smd ?s None) with (set_md Samp s None). rewrite set_md_set_md. reflexivity.
+    + reflexivity.
+  - cbn [del_axis raw option_map]. change (@None (list (option assoc))) with (raw None).
+    rewrite <- Hmd, set_md_same. reflexivity.
+Qed.
+
+Theorem del_metadata_bridge t keys s : mlen_ok t ->
+  del_metadata_gen (raw_state t) keys (sel_text s) = ROk (raw_state (del_metadata t keys s)).
+Proof.
+  intros Hok. destruct keys as [ks|].
+  - assert (HS : forall l, m_smd t = Some l -> length l = length (s_ids Samp (raw_state t)))
+      by (intros l E; exact (Hok Samp l E)).
+    assert (HO : forall l, m_omd t = Some l -> length l = length (s_ids Obs (raw_state t)))
+      by (intros l E; exact (Hok Obs l E)).
+    destruct s; unfold del_metadata_gen, sel_text.
+    + change (text_eqb (txt "observation") (txt "whole")) with false.
+      change (tmem (txt "observation") [txt "sample"; txt "observation"]) with true. cbv iota zeta.
+      change (txt "observation") with (axis_text Obs).
+      rewrite (del_axis_step Obs ks [] (raw_state t) (m_omd t) eq_refl HO).
+      cbn [del_metadata_gen_loop1 bind]. destruct t; reflexivity.
+    + change (text_eqb (txt "sample") (txt "whole")) with false.
+      change (tmem (txt "sample") [txt "sample"; txt "observation"]) with true. cbv iota zeta.
+      change (txt "sample") with (axis_text Samp).
+      rewrite (del_axis_step Samp ks [] (raw_state t) (m_smd t) eq_refl HS).
+      cbn [del_metadata_gen_loop1 bind]. destruct t; reflexivity.
+    + change (text_eqb (txt "whole") (txt "whole")) with true. cbv iota zeta.
+      change (txt "sample") with (axis_text Samp). change (txt "observation") with (axis_text Obs).
+      rewrite (del_axis_step Samp ks _ (raw_state t) (m_smd t) eq_refl HS).
+      rewrite (del_axis_step Obs ks [] _ (m_omd t)); [| reflexivity | exact HO].
+      cbn [del_metadata_gen_loop1 bind]. destruct t; reflexivity.
+  - destruct s, t; reflexivity.
+Qed.
+
+Theorem del_metadata_unknown_axis st keys s :
+  text_eqb s (txt "whole") = false -> tmem s [txt "sample"; txt "observation"] = false ->
+  del_metadata_gen st keys s = RErr E_UNKNOWN.
+Proof. intros H1 H2. unfold del_metadata_gen. rewrite H1, H2. reflexivity. Qed.
